@@ -433,7 +433,7 @@ func (p *vesting) Exec(w *e.World, st *e.Step) *e.Violation {
 			if m := vm.models[st.A]; m != nil {
 				// (the open corner again: a zero-length vesting period read exactly at its
 				// grant's start may count as vested — the inclusive reading decides)
-				if m.UnvestedIncl(now).Sign() != 0 || m.Unlocked(now).Cmp(m.Original()) < 0 {
+				if m.UnvestedIncl(now).Sign() != 0 || m.inclAt().Unlocked(now).Cmp(m.Original()) < 0 {
 					return e.Violatef("vesting-arithmetic", "converted-back-with-locked-or-unvested-coins", "acct %d at %d: reference unvested %s, unlocked %s of %s", st.A, now, m.Unvested(now), m.Unlocked(now), m.Original())
 				}
 				delete(vm.models, st.A)
@@ -682,6 +682,11 @@ func redeemCheck(w *e.World, st *e.Step, pre, post map[int]acctSnap, preDenoms [
 	}
 	for t := range times {
 		if t < now {
+			continue
+		}
+		// the open corner: a zero-length period read exactly at its account's start
+		// counts before a merge moved the start and not after; skip that instant
+		if (pre[T].va != nil && t == pre[T].va.StartTime.Unix()) || (post[T].va != nil && t == post[T].va.StartTime.Unix()) {
 			continue
 		}
 		gain := sub(lockedUp(post[T].va, t), lockedUp(pre[T].va, t))
